@@ -832,6 +832,92 @@ class Load(Op):
         return Exp("ok", value="loaded", owner=("C01", "C02", "C17"))
 
 
+@register
+class Copy(Op):
+    """{"op":"copy","ir":I,"as":"K1","how":"deepcopy"|"pickle"}: a second IR made by Python's
+    own copy protocols from a live one - an independent twin with equal UUIDs, like a load but
+    without a file. Only for IRs that are self-contained, hold no AuxData tables and no
+    expression object stored in two places (the copy protocols preserve such sharing, a file
+    does not; the model here is the file's)."""
+
+    name = "copy"
+    family = "persist"
+    timeout_owner = ("C03", "C04")
+
+    def labels(self, op):
+        return [(op["ir"], ("ir",))]
+
+    def touched(self, w, op):
+        return []
+
+    def ready(self, w, op):
+        m = w.m
+        I = op["ir"]
+        if (op["as"] + "." + I) in m.nodes or not self_contained(m, I, "none"):
+            return False
+        cells = set()
+        for l in m.subtree(I):
+            n = m.nodes[l]
+            if n.a.get("aux"):
+                return False
+            if n.kind == "bi":
+                if l in w.immutable_contents:
+                    return False
+                for cell in n.a["se"].values():
+                    if id(cell) in cells:
+                        return False
+                    cells.add(id(cell))
+        # ... nor may an expression of this IR be shared with an interval outside it
+        for l, n in m.nodes.items():
+            if n.kind == "bi" and l not in m.subtree(I):
+                if any(id(cell) in cells for cell in n.a["se"].values()):
+                    return False
+        return True
+
+    def run(self, w, op):
+        import copy
+        import pickle
+
+        I = w.objs[op["ir"]]
+        if op.get("how") == "pickle":
+            out = capture(lambda: pickle.loads(pickle.dumps(I)))
+        else:
+            out = capture(lambda: copy.deepcopy(I))
+        if out.kind == "ok":
+            out.value = "copied"
+        return out
+
+    def model(self, w, op, out):
+        owners = ("C03", "C04", "C16", "C05", "C06", "C13")
+        w.counters["probe:ir_copies_" + op.get("how", "deepcopy")] += 1
+        if out.kind != "ok":
+            return Exp("ok", value="copied", owner=owners)
+        snap = snapshot(w, op["ir"])
+        pre = op["as"] + "."
+        inside = set(snap["order"])
+        labels = register_loaded(w, out.raw, snap, lambda l: (pre + l) if l in inside else l, owners)
+        compare_model(w, labels, owners, owner_others=owners, labels=labels)
+        if w.owns(("C09", "C03", "C04")):
+            c09_check_as(w, pre + snap["ir"], owners)
+        return Exp("ok", value="copied", owner=owners)
+
+
+def c09_check_as(w, ir_label, owners):
+    """Every reference inside the copy is the copy's own object (identity), charged to `owners`."""
+    from .core import Violation
+
+    saved = w.prop
+    try:
+        w.prop = ("C09",)
+        try:
+            c09_check(w, ir_label)
+        except Violation as v:
+            w.prop = saved
+            w.violate(owners, "copy:" + v.check, v.detail)
+    finally:
+        w.prop = saved
+
+
 class FailingReader:
     """A stream over a good file that delivers `limit` bytes and then fails
     (I/O error on the medium): read() hands out what is left before the limit,
